@@ -9,7 +9,9 @@ Tie:  G  loop bounds / index expressions / guards / tables of focal.py and convo
 Oracle (independent of the model, written from the property statement): direct window computation in plain
 Python -- the cells under the 1-entries, clipped, NaN ignored -> statistic; user reducers on the expected window;
 iterated clipped 3x3 mean with pass-through; full-window weighted sum with NaN margin; z-score classes, the
-value set and the negation law.
+value set and the negation law.  mean / var / std are computed in exact rational arithmetic from the float32-cast cells; a
+variance / standard deviation must be a non-negative number wherever a valid cell lies under the kernel (rasters re-scaled
+to a + b*v, a up to 1e6, b down to 1e-3, flat and two-level windows up to 7x7: `gen_scaled`).
 The same oracle judges a Dask stream: the five public functions on Dask-backed rasters (a case carries `chunks`:
 1-cell chunks, one chunk, row / column strips, random compositions), so that "the full 3x3 window, applied
 `passes` times" and "the cells under the kernel" are checked against the property text on every backend the
@@ -23,6 +25,7 @@ the Lean driver and compared exactly with the numba-compiled function of /repo (
 import json
 import math
 import os
+from fractions import Fraction
 
 import numpy as np
 import xarray as xr
@@ -134,7 +137,9 @@ def exp_window(data, kernel, y, x):
 
 
 def stat_of(name, vals):
-    """the statistic of a list of finite-or-inf values (NaN already dropped)"""
+    """the statistic of a list of finite-or-inf values (NaN already dropped).  mean / var / std of finite values are computed
+    in exact rational arithmetic from the values as given (the float32-cast cells) and rounded once: the expected variance of a
+    flat window is exactly 0 whatever the level, and an offset of 1e6 costs no digit of a spread of 1e-3"""
     n = len(vals)
     if name == "sum":
         return math.fsum(vals) if all(math.isfinite(v) for v in vals) else sum(vals)
@@ -151,11 +156,12 @@ def stat_of(name, vals):
         if name == "mean":
             return s / n
         return NAN  # var / std with an infinite member: inf - inf
-    m = math.fsum(vals) / n
+    fv = [Fraction(v) for v in vals]
+    m = sum(fv) / n
     if name == "mean":
-        return m
-    var = math.fsum((v - m) ** 2 for v in vals) / n
-    return var if name == "var" else math.sqrt(var)
+        return float(m)
+    var = sum((v - m) ** 2 for v in fv) / n
+    return float(var) if name == "var" else math.sqrt(var)
 
 
 def py_reducer(name, w):
@@ -252,11 +258,61 @@ FLOAT_DT = ["float64", "float32"]
 INT_DT = ["int64", "int32"]
 
 
+LEVELS = [0.1, 1 / 3, math.pi, 0.7, 2.5, 7.0, 19.1237, 27.315]
+OFFSETS = [0.0, 0.0, 100.0, 273.15, 1912.37, 1e4, 12345.678, 1e5, 1e6]
+SCALES = [1e-3, 0.01, 0.1, 1 / 3, math.pi, 1.0, 1.0, 10.0]
+
+
+def gen_scaled(rng, rows, cols, dtype):
+    """value re-scaling v -> a + b*v (a up to 1e6, b down to 1e-3; levels with full float32 mantissas such as 0.1, 1/3, pi)
+    of a *flat* raster, a *two-level* raster (split along a column / a row, checkerboard, random mask), small integers or a
+    ramp: the magnitude / scale classes real rasters come in (temperatures in K, elevations in m, reflectances 0..1) and the
+    windows on which a statistic degenerates (every cell under the kernel equal; two plateaus).  Integer rasters: integer
+    offsets up to 2^24 and steps 1 / 10 / 100.  -> (values, pattern, a, b)"""
+    if dtype in INT_DT:
+        a, b = rng.choice([0, 1000, 10 ** 5, 10 ** 6, 2 ** 24 - 40]), rng.choice([1, 1, 10, 100])
+        levels = [float(rng.randrange(0, 60)) for _ in range(2)]
+    else:
+        a, b = rng.choice(OFFSETS), rng.choice(SCALES)
+        levels = [rng.choice(LEVELS + [rng.uniform(0, 100), float(rng.randrange(1, 100))]) for _ in range(2)]
+    pattern = rng.choice(["flat", "flat", "two-level", "two-level", "ints", "ramp"])
+    if levels[0] == levels[1] and pattern == "two-level":
+        levels[1] = levels[0] + 1.0
+    if pattern == "flat":
+        v = [[levels[0]] * cols for _ in range(rows)]
+    elif pattern == "two-level":
+        how = rng.choice(["cols", "rows", "checker", "mask"])
+        cut_c, cut_r, dens = rng.randrange(1, max(2, cols)), rng.randrange(1, max(2, rows)), rng.choice([0.1, 0.3, 0.5])
+        pick = dict(cols=lambda i, j: j >= cut_c, rows=lambda i, j: i >= cut_r, checker=lambda i, j: (i + j) % 2 == 1,
+                    mask=lambda i, j: rng.random() < dens)[how]
+        v = [[levels[1] if pick(i, j) else levels[0] for j in range(cols)] for i in range(rows)]
+    elif pattern == "ints":
+        v = [[float(rng.randrange(0, 10)) for _ in range(cols)] for _ in range(rows)]
+    else:
+        v = [[float(i * cols + j) for j in range(cols)] for i in range(rows)]
+    return [a + b * x for row in v for x in row], pattern, a, b
+
+
 def gen_data(rng, shape=None, dtype=None, kind=None):
+    kind = kind or rng.choice(["small", "small", "dyadic", "wide", "distinct", "scaled", "scaled"])
+    if kind == "scaled":
+        shape = shape or (rng.randrange(3, 10), rng.randrange(3, 10))
     rows, cols = shape or (rng.randrange(1, 8), rng.randrange(1, 9))
     dtype = dtype or rng.choice(["float64"] * 5 + ["float32", "int64", "int32"])
-    kind = kind or rng.choice(["small", "small", "dyadic", "wide", "distinct"])
     n = rows * cols
+    if kind == "scaled":
+        vals, pattern, off, unit = gen_scaled(rng, rows, cols, dtype)
+        a = np.array(vals, dtype=np.float64).reshape(rows, cols).astype(dtype)
+        nan_cells = 0
+        if dtype in FLOAT_DT:
+            p = rng.choice([0.0, 0.0, 0.0, 0.1, 0.3])
+            for i in range(rows):
+                for j in range(cols):
+                    if rng.random() < p:
+                        a[i, j] = np.nan
+                        nan_cells += 1
+        return a, dict(dtype=dtype, kind=kind, nan_cells=nan_cells, unit=float(unit), pattern=pattern,
+                       offset="0" if off == 0 else "<=1e3" if off <= 1e3 else "<=1e5" if off <= 1e5 else ">1e5")
     if kind == "distinct" and n > 42:
         kind = "wide"
     if kind == "small":
@@ -283,6 +339,30 @@ def gen_data(rng, shape=None, dtype=None, kind=None):
                     a[i, j] = np.nan
                     nan_cells += 1
     return a, dict(dtype=dtype, kind=kind, nan_cells=nan_cells)
+
+
+BIG_SHAPES = [(3, 3), (3, 5), (5, 3), (5, 5), (5, 5), (3, 7), (7, 3), (5, 7), (7, 5), (7, 7), (7, 7)]
+
+
+def gen_kernel_big(rng):
+    """0/1 kernels 3x3 .. 7x7 that select many cells: all ones, an ellipse (circle kernels), dense / half-dense random"""
+    kr, kc = rng.choice(BIG_SHAPES)
+    how = rng.choice(["ones", "ones", "ellipse", "dense", "half"])
+    hr, hc = kr // 2, kc // 2
+    if how == "ones":
+        return np.ones((kr, kc))
+    if how == "ellipse":
+        return np.array([[1.0 if ((a - hr) / (hr + 0.5)) ** 2 + ((b - hc) / (hc + 0.5)) ** 2 <= 1 else 0.0 for b in range(kc)]
+                         for a in range(kr)])
+    dens = 0.85 if how == "dense" else 0.5
+    return np.array([[1.0 if rng.random() < dens else 0.0 for _ in range(kc)] for _ in range(kr)])
+
+
+def scale_kw(info):
+    """what a case records of a re-scaled raster (the oracle's tolerances are in units of the spread)"""
+    if info["kind"] != "scaled":
+        return {}
+    return dict(unit=info["unit"], pattern=info["pattern"], offset=info["offset"])
 
 
 def gen_kernel01(rng, max_side=7, shape=None):
@@ -337,6 +417,33 @@ def from_j(c):
     if "kernel" in c:
         kernel = np.array([[untok(t) for t in r] for r in c["kernel"]], dtype=np.float64).astype(c["kdtype"])
     return data, kernel
+
+
+def tol_of(c, data, kernel, stat=None):
+    """tolerance of a value comparison for this case: 2e-5 relative, 2e-5 absolute *in units of the raster's spread* (`unit`: the
+    b of a re-scaled raster a + b*v, 1 otherwise; squared for a variance), plus what a float64 evaluation over the window can
+    lose against the exact value: n * 2^-50 * max|cell| on a mean (hence on a standard deviation of a flat window; squared on its
+    variance) and on a kernel-weighted sum whose terms cancel.  Unscaled rasters (|cell| <= 2048): the added terms are < 1e-10."""
+    unit = float(c.get("unit", 1.0))
+    fin = np.abs(data[np.isfinite(data)]) if data.size else np.array([])
+    mag = float(fin.max()) if fin.size else 0.0
+    kabs = float(np.nansum(np.abs(kernel))) if kernel is not None else 9.0
+    lost = max(kabs, 1.0) * 2.0 ** -50 * mag
+    if stat == "var":
+        return dict(rel=TOL["rel"], abs_=TOL["abs_"] * unit * unit + lost * lost)
+    return dict(rel=TOL["rel"], abs_=TOL["abs_"] * unit + lost)
+
+
+def negative_moment(stat, real, exp):
+    """a variance / standard deviation is a non-negative real number wherever the window holds a valid cell (the expected value
+    is not NaN): -> None or (i, j, real, expected)"""
+    if stat not in ("var", "std"):
+        return None
+    for i, (rr, er) in enumerate(zip(real, exp)):
+        for j, (a, b) in enumerate(zip(rr, er)):
+            if not isnan(float(b)) and (isnan(float(a)) or float(a) < 0):
+                return (i, j, float(a), float(b))
+    return None
 
 
 def grids_close(real, exp, tol=TOL):
@@ -432,7 +539,12 @@ def oracle(c, status, out):
         if status != "ok":
             return ("apply:raised", f"apply raised {status}: {out}")
         exp = oracle_apply(rows_of(data.astype("f4")), rows_of(kernel), c["func"])
-        bad = grids_close(out, exp)
+        stat = c["func"][5:] if c["func"].startswith("stat:") else None
+        neg = negative_moment(stat, out, exp)
+        if neg:
+            return ("apply:stat", f"apply func={c['func']}: cell ({neg[0]},{neg[1]}) is {neg[2]}: the {stat} of the cells under the "
+                                  f"kernel is a non-negative number ({neg[3]})")
+        bad = grids_close(out, exp, tol_of(c, data.astype("f4"), kernel, stat))
         if bad:
             return ("apply:" + ("stat" if c["func"].startswith("stat:") else "window"),
                     f"apply func={c['func']}: cell ({bad[0]},{bad[1]}) is {bad[2]}, the window under the kernel gives {bad[3]}")
@@ -447,7 +559,12 @@ def oracle(c, status, out):
             return ("stats:order", f"layers labelled {out['names']} for request {c['stats']}")
         d, k = rows_of(data.astype("f4")), rows_of(kernel)
         for s, layer in zip(c["stats"], out["layers"]):
-            bad = grids_close(layer, oracle_apply(d, k, "stat:" + s))
+            exp = oracle_apply(d, k, "stat:" + s)
+            neg = negative_moment(s, layer, exp)
+            if neg:
+                return ("stats:" + s, f"focal_stats layer '{s}': cell ({neg[0]},{neg[1]}) is {neg[2]}: the {s} of the cells under the "
+                                      f"kernel is a non-negative number ({neg[3]})")
+            bad = grids_close(layer, exp, tol_of(c, data.astype("f4"), kernel, s))
             if bad:
                 return ("stats:" + s, f"focal_stats layer '{s}': cell ({bad[0]},{bad[1]}) is {bad[2]}, the cells under the kernel give {bad[3]}")
         return None
@@ -457,7 +574,7 @@ def oracle(c, status, out):
             key = "mean:empty-excludes" if not ex else "mean:raised"
             return (key, f"mean(passes={c['passes']}, excludes={ex}) raised {status}: {out}")
         exp = oracle_mean(rows_of(data.astype(float)), c["passes"], ex)
-        bad = grids_close(out, exp, dict(rel=1e-9, abs_=1e-9))
+        bad = grids_close(out, exp, dict(rel=1e-9, abs_=1e-9 * float(c.get("unit", 1.0))))
         if bad:
             return ("mean:value", f"mean passes={c['passes']} excludes={ex}: cell ({bad[0]},{bad[1]}) is {bad[2]}, "
                                   f"iterated clipped 3x3 mean with pass-through gives {bad[3]}")
@@ -466,7 +583,7 @@ def oracle(c, status, out):
         if status != "ok":
             return ("conv:raised", f"convolution_2d raised {status}: {out}")
         exp = oracle_conv(rows_of(data.astype("f4")), rows_of(kernel))
-        bad = grids_close(out, exp)
+        bad = grids_close(out, exp, tol_of(c, data.astype("f4"), kernel))
         if bad:
             return ("conv:value", f"convolution_2d: cell ({bad[0]},{bad[1]}) is {bad[2]}, kernel-weighted window sum gives {bad[3]}")
         return None
@@ -581,8 +698,15 @@ def s_apply_random(rng, n, restricted_dtypes=True):
         kernel = gen_kernel01(rng)
         kd = "float64"
         funcs = ["stat:" + s for s in STATS] + USER
+        scaled = info["kind"] == "scaled"
+        if scaled:
+            kernel = gen_kernel_big(rng)
+            funcs = ["stat:var", "stat:std", "stat:var", "stat:std", "stat:mean", "stat:range", "stat:sum", "stat:max", "posw", "centre"]
         if info["dtype"] != "float64":
-            funcs = ["stat:mean", "stat:sum", "posw"]
+            # (every (raster dtype, reducer) pair is one more numba specialisation of _apply_numpy)
+            funcs = ["stat:mean", "stat:sum", "posw"] + (["stat:var", "stat:std"] * 2 if scaled and info["dtype"] == "float32" else [])
+        elif scaled:
+            pass
         elif rng.random() < 0.12:
             kd = "int64"
             funcs = ["stat:mean", "posw"]
@@ -590,7 +714,8 @@ def s_apply_random(rng, n, restricted_dtypes=True):
         if kd == "float64" and rng.random() < 0.12:  # entries that are not 0/1 select nothing
             for _ in range(rng.randrange(1, 4)):
                 kernel[rng.randrange(kernel.shape[0]), rng.randrange(kernel.shape[1])] = rng.choice([2.0, 0.5, -1.0, np.nan])
-        yield jcase("apply", data, info["dtype"], kernel.astype(kd), kd, func=func, gen=info["kind"], nan_cells=info["nan_cells"])
+        yield jcase("apply", data, info["dtype"], kernel.astype(kd), kd, func=func, gen=info["kind"], nan_cells=info["nan_cells"],
+                    **scale_kw(info))
 
 
 EXH_SHAPES = [(1, 1), (1, 3), (3, 1), (3, 3)]
@@ -621,15 +746,19 @@ def s_apply_exhaustive(rng, sample=None):
 def s_stats(rng, n):
     for _ in range(n):
         data, info = gen_data(rng, dtype=rng.choice(["float64"] * 4 + ["float32", "int64"]))
+        scaled = info["kind"] == "scaled"
         if info["dtype"] != "float64":
             stats = rng.sample(["mean", "sum"], rng.randrange(1, 3))
+            if scaled and info["dtype"] == "float32":
+                stats = rng.sample(["mean", "sum", "var", "std"], rng.randrange(1, 5))
         else:
             stats = rng.sample(STATS, rng.randrange(1, 8))
             if rng.random() < 0.3:
                 stats = list(STATS)
             if rng.random() < 0.08:
                 stats.insert(rng.randrange(len(stats) + 1), rng.choice(["median", "Mean", "count"]))
-        yield jcase("stats", data, info["dtype"], gen_kernel01(rng), "float64", stats=stats, gen=info["kind"], nan_cells=info["nan_cells"])
+        yield jcase("stats", data, info["dtype"], gen_kernel_big(rng) if scaled else gen_kernel01(rng), "float64", stats=stats,
+                    gen=info["kind"], nan_cells=info["nan_cells"], **scale_kw(info))
 
 
 EXCLUDES = [["nan"], ["nan"], ["nan", "0"], ["2"], ["nan", "1", "3"], ["0"], ["nan", "5"], ["-1", "7"], []]
@@ -637,10 +766,10 @@ EXCLUDES = [["nan"], ["nan"], ["nan", "0"], ["2"], ["nan", "1", "3"], ["0"], ["n
 
 def s_mean(rng, n):
     for _ in range(n):
-        data, info = gen_data(rng, kind=rng.choice(["small", "small", "dyadic", "wide"]))
+        data, info = gen_data(rng, kind=rng.choice(["small", "small", "dyadic", "wide", "scaled"]))
         ex = rng.choice(EXCLUDES)
         yield jcase("mean", data, info["dtype"], passes=rng.choice([0, 1, 1, 2, 2, 3, 4]), excludes=list(ex),
-                    gen=info["kind"], nan_cells=info["nan_cells"])
+                    gen=info["kind"], nan_cells=info["nan_cells"], **scale_kw(info))
 
 
 def s_conv(rng, n):
@@ -658,7 +787,8 @@ def s_conv(rng, n):
         else:
             k = gen_kernel01(rng, shape=(kr, kc))
         kd = "int64" if (wk != "dyadic" and rng.random() < 0.15) else "float64"
-        yield jcase("conv", data, info["dtype"], k.astype(kd), kd, gen=info["kind"] + "/" + wk, nan_cells=info["nan_cells"])
+        yield jcase("conv", data, info["dtype"], k.astype(kd), kd, gen=info["kind"] + "/" + wk, nan_cells=info["nan_cells"],
+                    **scale_kw(info))
 
 
 def s_hot(rng, n):
@@ -753,6 +883,9 @@ def s_dask(rng, n):
 
 def tags_of(c):
     t = [f"kind:{c['kind']}", f"dtype:{c['dtype']}", f"gen:{c.get('gen')}"]
+    if "unit" in c:
+        t += [f"scaled:pattern={c.get('pattern')}", f"scaled:offset={c.get('offset')}",
+              "scaled:unit=" + ("<=1e-2" if c["unit"] <= 0.01 else "<1" if c["unit"] < 1 else "1" if c["unit"] == 1 else ">1")]
     if c.get("chunks"):
         t += ["backend:dask", f"chunking:{c.get('chunking')}", f"blocks:{min(len(c['chunks'][0]) * len(c['chunks'][1]), 9)}",
               f"dask-kind:{c['kind']}"]
@@ -795,7 +928,7 @@ def process(r, cases, stream):
         c = dict(c)
         c["stream"] = stream
         status, out = run_real(c)
-        r.case({k: v for k, v in c.items() if k not in ("gen", "nan_cells", "stream", "chunking")},
+        r.case({k: v for k, v in c.items() if k not in ("gen", "nan_cells", "stream", "chunking", "pattern", "offset")},
                desc={k: v for k, v in c.items() if k not in ("nan_cells",)} if r.evaluations % 97 == 0 else None,
                nontrivial=nontrivial(c), tags=tags_of(c) + [f"status:{status}", f"stream:{stream}"])
         bad = oracle(c, status, out)
@@ -845,7 +978,12 @@ SIZES = {
 
 def run(r, scale=1):
     r.rule = ("rasters 1..7 x 1..8 (conv up to 8x8), dtypes float64/float32/int64/int32, values from small ints, dyadics, "
-              "-60..60, distinct powers/primes; NaN density 0..100%; kernels: odd shapes 1..7 x 1..7 (non-square, asymmetric, "
+              "-60..60, distinct powers/primes, and (2 in 7; apply, focal_stats, mean, convolution and their Dask twins) re-scaled rasters a + b*v "
+              "3..9 x 3..9 with a in {0, 100, 273.15, 1912.37, 1e4, 12345.678, 1e5, 1e6}, b in {1e-3 .. 10, 1/3, pi}, v flat / two-level "
+              "(column / row split, checkerboard, random mask; levels 0.1, 1/3, pi, random doubles) / small ints / ramp, float64 / float32 "
+              "/ int (offsets to 2^24), with kernels 3x3..7x7 of all ones / an ellipse / dense: the expected statistic is computed in exact "
+              "rational arithmetic from the float32-cast cells, var >= 0 and std not NaN wherever a valid cell lies under the kernel, "
+              "tolerances in units of b; NaN density 0..100%; kernels: odd shapes 1..7 x 1..7 (non-square, asymmetric, "
               "larger than the raster), 0/1 entries of density 0.2..1, some non-0/1 and NaN entries, int and float dtype; "
               "weighted kernels for convolution; reducers: 7 built-ins + 7 jitted user reducers (position-weighted, first/last, "
               "NaN-position, centre, corner); passes 0..4; excludes lists incl. empty; thorough: all 0/1 kernels of shapes "
